@@ -41,6 +41,15 @@ def spec_accepts(inp, impl, spec):
     return False
 
 
+def verdict_holds(verdict, impl):
+    """theorem kind_table_total read on the real conversion: reject = error, accept / keeps / zero = success"""
+    if verdict == "reject":
+        return impl == "ERR"
+    if verdict in ("accept", "keeps", "zero"):
+        return impl.startswith("OK")
+    return True
+
+
 def size_of(inp):
     return len(inp.split())
 
@@ -58,7 +67,7 @@ def main(argv):
         "int -> float64 only for |n| <= 2^53; float64 -> int64 outside NaN/|x| >= 2^63 (otherwise the model is silent)",
     ]
     cases = c.harness("c10")
-    prop_fail, corr_fail = [], []
+    prop_fail, corr_fail, table_fail = [], [], []
     known = {}
     n = silent_spec = silent_model = 0
     if cases:
@@ -67,6 +76,10 @@ def main(argv):
             for cid, inp, impl, model, spec in iter_joined(cases, mout):
                 n += 1
                 tags = []
+                verdict = None
+                if inp.startswith("slot ") and " ^" in model:
+                    # the proved (value kind x slot kind) table's verdict rides on the model column
+                    model, verdict = model.rsplit(" ^", 1)
                 if "|" in spec:
                     spec, t = spec.rsplit("|", 1)
                     tags = [x for x in t.split(",") if x]
@@ -83,6 +96,9 @@ def main(argv):
                         rec["explained_by"] = tags
                         prop_fail.append(rec)
                     continue
+                if verdict is not None and not verdict_holds(verdict, impl):
+                    rec["kind_table_verdict"] = verdict
+                    table_fail.append(rec)
                 if model in ("OOM", "FUEL"):
                     silent_model += 1
                 elif not corresponds(inp, impl, model):
@@ -114,6 +130,8 @@ def main(argv):
                            "hist <Target> <record> then steps G id = (togo r_id), M id = a Go method called ON r_id (converted implicitly when no Go object is attached), P id = r_id passed to a Go method that renders its argument, S id key value = (hset r_id key value), E id n p.. newid = a Go method on r_id returns the pointer at field path p (none = the receiver itself) and the result is bound as record newid; observables of the G/P steps joined by ';'")
             c.violation(f)
     if not prop_fail:
+        if table_fail and not corr_fail:
+            corr_fail = table_fail
         if corr_fail:
             corr_fail.sort(key=lambda r: size_of(r["input"]))
             c.violation({"kind": "correspondence: the real conversion differs from the Coq model GoConv.to_go / GoConv.echo (no case violating the specification found)",
@@ -122,4 +140,5 @@ def main(argv):
             c.violation({"kind": "proof obligation no longer checks", "detail": c.proof_break}, no_input=True, tag="proof")
     c.coverage["property_failures"] = len(prop_fail)
     c.coverage["correspondence_failures"] = len(corr_fail)
+    c.coverage["kind_table_verdict_failures"] = len(table_fail)
     c.finish("proof")
